@@ -289,8 +289,11 @@ func c14Order(r *core.Report) {
 					}
 				}
 				if last != nil && len(last.Results) == 1 {
-					if be, ok := core.Unparen(last.Results[0]).(*ast.BinaryExpr); ok && be.Op == token.LSS && fromI[core.ObjOf(li, be.X)] && fromJ[core.ObjOf(li, be.Y)] {
-						okCmp = true
+					if be, ok := core.Unparen(last.Results[0]).(*ast.BinaryExpr); ok {
+						// index(i) < index(j), in either spelling
+						if (be.Op == token.LSS && fromI[core.ObjOf(li, be.X)] && fromJ[core.ObjOf(li, be.Y)]) || (be.Op == token.GTR && fromJ[core.ObjOf(li, be.X)] && fromI[core.ObjOf(li, be.Y)]) {
+							okCmp = true
+						}
 					}
 				}
 			}
